@@ -715,17 +715,34 @@ class _Report:
         self.cases, self.failures, self.distinct, self.notes, self._seen = 0, [], set(), [], set()
 
     def fail(self, name, case, **details):
-        key = (name, case)
-        if key in self._seen:
+        key = (name, str(case))
+        if key in self._seen or len(self.failures) >= 2000:
             return
         self._seen.add(key)
-        if len(self.failures) < 6:
-            self.failures.append(dict(name=name, case=str(case)[:240], **{k: str(v)[:300] for k, v in details.items()}))
-        else:
-            self.failures_more = getattr(self, "failures_more", 0) + 1
+        self.failures.append(dict(name=name, case=str(case)[:240], **{k: str(v)[:300] for k, v in details.items()}))
+
+    def guard(self, prefix, case, fn, *args):
+        """Run one case; an exception of the code under test is a failure of the case, not of the harness"""
+        try:
+            return fn(*args)
+        except Exception as e:  # noqa
+            self.fail(prefix + " identifier computation or graph construction raises", case, error=repr(e)[:200])
+            return None
 
     def result(self, tool, bound):
-        r = dict(tool=tool, bound=bound, cases=self.cases, distinct=len(self.distinct), failures=self.failures[:6])
+        # at most 6 failures, as many different kinds as possible (round robin over the names, first occurrence first)
+        by_name = {}
+        for f in self.failures:
+            by_name.setdefault(f["name"], []).append(f)
+        chosen, k = [], 0
+        while len(chosen) < 6 and any(len(v) > k for v in by_name.values()):
+            for v in by_name.values():
+                if len(v) > k and len(chosen) < 6:
+                    chosen.append(v[k])
+            k += 1
+        r = dict(tool=tool, bound=bound, cases=self.cases, distinct=len(self.distinct), failures=chosen)
+        if len(self.failures) > len(chosen):
+            self.notes.append("%d failing comparisons of %d kinds in total" % (len(self.failures), len(by_name)))
         if self.notes:
             r["notes"] = self.notes
         return r
@@ -738,11 +755,7 @@ def _hex(b):
 def _check_spec(rep, name, objs, what="C01 identifier differs from the specification"):
     """spec == real for the raw and the full identifier of every object"""
     for i, c in enumerate(objs):
-        try:
-            rr, rf = real_raw(c), real_full(c)
-        except Exception as e:  # noqa
-            rep.fail("C01 identifier computation raises", name, node=i, error=repr(e))
-            continue
+        rr, rf = real_raw(c), real_full(c)
         sr, sf = spec_raw(c), spec_full(c)
         rep.cases += 2
         rep.distinct.add(sf)
@@ -874,6 +887,36 @@ def _hashseeds(rep):
     return len(want)
 
 
+def _case_content(rep, name, roots):
+    objs, every = build(roots)
+    _check_spec(rep, name, every)
+    # history: the identifiers were requested, now the content changes; the answer must follow the content
+    for c in reversed(every):
+        if c.__xpm__._sealed or c.__xpm__.task is not None:
+            continue
+        pname = next((k for k in ("x", "k", "i", "a") if isinstance(c.__xpm__.values.get(k), int)), None)
+        if pname is None:
+            continue
+        setattr(c, pname, c.__xpm__.values[pname] + 10)
+        _check_spec(rep, name + f" after {pname} += 10 on {_typeid(c)}", every,
+                    what="C01 identifier does not follow an edit made after it was requested")
+        break
+    for c in objs:
+        if not c.__xpm__._sealed:
+            c.__xpm__.seal(_x().Ctx())
+    _check_spec(rep, name + " sealed", objs, what="C01 identifier of a sealed configuration differs from the specification")
+
+
+def _case_kw_order(rep, name, roots):
+    a, _ = build(roots)
+    b, _ = build([_reverse_orders(r) for r in roots])
+    for i, (ca, cb) in enumerate(zip(a, b)):
+        rep.cases += 1
+        if real_full(ca) != real_full(cb) or real_raw(ca) != real_raw(cb):
+            rep.fail("C01 identifier depends on keyword or dict insertion order", name, node=i,
+                     a=_hex(real_full(ca)), b=_hex(real_full(cb)))
+
+
 def run_c01(tier, seed):
     rnd = random.Random(seed)
     rep = _Report()
@@ -881,34 +924,19 @@ def run_c01(tier, seed):
     t0 = time.time()
     trees = tree_cases(tier, rnd)
     nodes = node_cases(tier, rnd)
-    # (a) spec == real on every configuration of every graph, unsealed then sealed
+    # (a) spec == real on every configuration of every graph: unsealed, after an edit (no stale answer), sealed
     for name, roots in trees + nodes:
-        try:
-            objs, every = build(roots)
-        except Exception as e:  # noqa
-            rep.fail("C01 graph cannot be built", name, error=repr(e))
-            continue
-        _check_spec(rep, name, every)
-        for c in objs:
-            if not c.__xpm__._sealed:
-                c.__xpm__.seal(_x().Ctx())
-        _check_spec(rep, name + " sealed", objs, what="C01 identifier of a sealed configuration differs from the specification")
+        rep.guard("C01", name, _case_content, rep, name, roots)
     # (c) keyword / dict insertion order
     for name, roots in trees:
-        a, _ = build(roots)
-        b, _ = build([_reverse_orders(r) for r in roots])
-        for i, (ca, cb) in enumerate(zip(a, b)):
-            rep.cases += 1
-            if real_full(ca) != real_full(cb) or real_raw(ca) != real_raw(cb):
-                rep.fail("C01 identifier depends on keyword or dict insertion order", name, node=i,
-                         a=_hex(real_full(ca)), b=_hex(real_full(cb)))
+        rep.guard("C01", name, _case_kw_order, rep, name, roots)
     # (b) request orders on shared / cyclic graphs (and on a few trees with several configurations)
-    budget = (9 if quick else 100)
+    budget = (13 if quick else 110)
     for k, (name, roots) in enumerate(nodes):
         if time.time() - t0 > budget:
             rep.notes.append(f"request-order enumeration stopped after {k} of {len(nodes)} node graphs (time budget)")
             break
-        _orders(rep, name, roots, 24 if not quick else 6, rnd)
+        rep.guard("C01", name, _orders, rep, name, roots, 24 if not quick else 6, rnd)
     z = _x().zoo
     multi = [[G(z.Leaf, dict(x=1), label="s"), G(z.Holder, dict(a=R("s"), lst=[R("s")]), label="h"),
               G(z.Deep, dict(h=R("h"), hs=[R("h")], dh={"p": [R("s")]}))],
@@ -916,7 +944,7 @@ def run_c01(tier, seed):
               G(z.Consumer, dict(a=R("o"), h=R("h")), pre=[G(z.Light)])],
              [G(z.Neutral, dict(x=1, sub=G(z.Neutral, dict(x=2), label="b"), subs=[R("b")]), label="a"), R("b")]]
     for roots in multi:
-        _orders(rep, repr(roots)[:200], roots, 6, rnd)
+        rep.guard("C01", repr(roots)[:200], _orders, rep, repr(roots)[:200], roots, 6, rnd)
     # (d) other processes, other string-hash seeds
     nfixed = _hashseeds(rep)
     rep.notes.extend(_probe_notes())
@@ -1009,6 +1037,31 @@ def _neutral_edits(g):
     return out
 
 
+def _case_neutral(rep, name, roots):
+    objs, _ = build(roots)
+    base = [(real_raw(c), real_full(c)) for c in objs]
+    for path, node in _walk(roots):
+        if not isinstance(node, G):
+            continue
+        for ename, new in _neutral_edits(node):
+            case = f"{name} @{'/'.join(str(s[1]) for s in path)} {ename}"
+            kind = ename.split("=")[0]
+            try:
+                eobjs, _ = build(_put(roots, path, new))
+                got = [(real_raw(c), real_full(c)) for c in eobjs]
+            except Exception as e:  # noqa
+                rep.fail("C02 edited graph cannot be built or identified: " + kind, case, error=repr(e))
+                continue
+            rep.distinct.add(kind + node.cls.__name__ + str(len(path)))
+            for i, c in enumerate(eobjs):
+                rep.cases += 1
+                if got[i] != base[i]:
+                    rep.fail("C02 signature-neutral edit changes the identifier: " + kind, case, root=i,
+                             before=_hex(base[i][1]), after=_hex(got[i][1]), raw_before=_hex(base[i][0]), raw_after=_hex(got[i][0]))
+                elif got[i] != (spec_raw(c), spec_full(c)):
+                    rep.fail("C02 identifier after a neutral edit differs from the specification", case, root=i)
+
+
 def run_c02(tier, seed):
     rnd = random.Random(seed)
     rep = _Report()
@@ -1017,52 +1070,33 @@ def run_c02(tier, seed):
     z = x.zoo
     t0 = time.time()
     cases = tree_cases(tier, rnd) + node_cases(tier, rnd)
-    # evolution needs nested EvoOld nodes; the tree cases contain EvoHolder(e=EvoOld...)
     order = list(range(len(cases)))
     rnd.shuffle(order)
-    budget = 17 if quick else 150
+    budget = 19 if quick else 150
     done = 0
     for idx in order:
         if time.time() - t0 > budget:
             break
         done += 1
         name, roots = cases[idx]
-        objs, _ = build(roots)
-        base = [(real_raw(c), real_full(c)) for c in objs]
-        for path, node in _walk(roots):
-            if not isinstance(node, G):
-                continue
-            for ename, new in _neutral_edits(node):
-                case = f"{name} @{'/'.join(str(s[1]) for s in path)} {ename}"
-                try:
-                    eobjs, _ = build(_put(roots, path, new))
-                except Exception as e:  # noqa
-                    rep.fail("C02 edited graph cannot be built", case, error=repr(e))
-                    continue
-                rep.distinct.add(ename.split("=")[0] + node.cls.__name__ + str(len(path)))
-                for i, c in enumerate(eobjs):
-                    rep.cases += 1
-                    got = (real_raw(c), real_full(c))
-                    if got != base[i]:
-                        rep.fail("C02 signature-neutral edit changes the identifier: " + ename.split("=")[0], case, root=i,
-                                 before=_hex(base[i][1]), after=_hex(got[1]), raw_before=_hex(base[i][0]), raw_after=_hex(got[0]))
-                    elif got != (spec_raw(c), spec_full(c)):
-                        rep.fail("C02 identifier after a neutral edit differs from the specification", case, root=i)
+        rep.guard("C02", name, _case_neutral, rep, name, roots)
     if done < len(cases):
         rep.notes.append(f"{done} of {len(cases)} graphs edited within the time budget (random order, seed {seed})")
     # generated paths: sealing with different contexts gives different paths and the same identifier
-    for xv in (1, 2):
+    def generated(xv):
         ids = set()
         for ctxpath in (None, "/ctx/one", "/ctx/two"):
             (c,), _ = build([G(z.Neutral, dict(x=xv, sub=G(z.Neutral, dict(x=3))))])
             if ctxpath:
                 c.__xpm__.seal(x.Ctx(ctxpath))
-                if str(c.gp) != ctxpath + "/x" and not str(c.gp).startswith(ctxpath):
-                    rep.fail("C02 generated path not generated under the context", f"Neutral(x={xv}) {ctxpath}", got=str(c.gp))
+                if not str(c.gp).startswith(ctxpath) or c.gp == c.sub.gp:
+                    rep.fail("C02 generated path not generated under the context (harness)", f"Neutral(x={xv}) {ctxpath}", got=str(c.gp))
             ids.add((real_raw(c), real_full(c)))
             rep.cases += 1
         if len(ids) != 1:
             rep.fail("C02 generated path parameter changes the identifier", f"Neutral(x={xv}) sealed with two contexts")
+    for xv in (1, 2):
+        rep.guard("C02", f"generated path Neutral(x={xv})", generated, xv)
     return rep.result(
         tool="cpython: real identifier before / after every signature-neutral edit (and vs the specification)",
         bound="%d graphs (the C01 enumeration), every node at every depth x {tags, parameter explicitly at its default, optional"
@@ -1244,8 +1278,7 @@ def run_c03(tier, seed):
         ("init tasks vs none", G(z.Consumer, dict(a=L(1)), submit=True, init=[li]), G(z.Consumer, dict(a=L(1)), submit=True)),
         ("forced-in meta parameter", G(z.Neutral, dict(x=1, mc=L(1).but(meta=False))), G(z.Neutral, dict(x=1, mc=L(2).but(meta=False)))),
     ]
-    for entry in named:
-        what, a, b = entry[0], entry[1], entry[2]
+    def named_pair(what, a, b):
         (ia,), (ib,) = _ids([a]), _ids([b])
         rep.cases += 1
         record(f"{what}: {a!r}", 0, ia[0], ia[1], ia[2])
@@ -1254,32 +1287,34 @@ def run_c03(tier, seed):
             rep.fail("C03 near pair is not distinguished by the canonical signature (harness)", f"{what}: {a!r} | {b!r}")
         elif ia[0] == ib[0] or (ia[2][0] != ib[2][0] and ia[1] == ib[1]):
             rep.fail("C03 near pair collides: " + what, f"{a!r} | {b!r}", identifier=_hex(ia[0]))
+    for what, a, b in named:
+        rep.guard("C03", f"{what}: {a!r} | {b!r}", named_pair, what, a, b)
     # cycles of length 1, 2, 3 with identical node content; the same cycle entered at another node
-    cyc = [_node_graph(n, (0,) * n, tuple((i + 1) % n for i in range(n)), (None,) * n) for n in (1, 2, 3)]
-    cyc_ids = [_ids(r)[0] for r in cyc]
-    for (i, a), (j, b) in itertools.combinations(enumerate(cyc_ids), 2):
-        rep.cases += 1
-        if a[0] == b[0]:
-            rep.fail("C03 near pair collides: cycle length", f"cycle of {i + 1} vs cycle of {j + 1} identical nodes")
+    def cycles():
+        cyc = [_node_graph(n, (0,) * n, tuple((i + 1) % n for i in range(n)), (None,) * n) for n in (1, 2, 3)]
+        cyc_ids = [_ids(r)[0] for r in cyc]
+        for (i, a), (j, b) in itertools.combinations(enumerate(cyc_ids), 2):
+            rep.cases += 1
+            if a[0] == b[0]:
+                rep.fail("C03 near pair collides: cycle length", f"cycle of {i + 1} vs cycle of {j + 1} identical nodes")
+    rep.guard("C03", "cycles of 1, 2, 3 identical nodes", cycles)
 
     # every enumerated graph, and every graph one small edit away from it
     order = list(range(len(cases)))
     rnd.shuffle(order)
-    budget = 20 if quick else 160
+    budget = 19 if quick else 150
     done = 0
-    for idx in order:
-        name, roots = cases[idx]
+    def one(name, roots, with_mutations):
         base = _ids(roots)
         for i, b in enumerate(base):
             record(name, i, b[0], b[1], b[2])
             if b[0] != b[3]:
                 rep.fail("C03 identifier differs from the specification", name, root=i)
-        if time.time() - t0 > budget:
-            continue                                                                 # keep the cheap pairwise part for all graphs
-        done += 1
+        if not with_mutations:
+            return
         muts = list(_mutations(roots))
-        if len(muts) > (40 if quick else 120):
-            muts = rnd.sample(muts, 40 if quick else 120)
+        if len(muts) > nmut:
+            muts = rnd.sample(muts, nmut)
         for kind, mroots in muts:
             case = f"{name} -> {kind}: {mroots!r}"[:240]
             try:
@@ -1290,11 +1325,17 @@ def run_c03(tier, seed):
                 rep.cases += 1
                 record(case, i, m[0], m[1], m[2])
                 if (b[2] != m[2]) != (b[0] != m[0]):
-                    rep.fail("C03 near pair: identifiers %s although the signatures %s: %s" % (
-                        ("are equal", "differ") if b[2] != m[2] else ("differ", "are equal"), kind), case, root=i,
-                        a=_hex(b[0]), b=_hex(m[0]))
+                    how = "are equal although the signatures differ" if b[2] != m[2] else "differ although the signatures are equal"
+                    rep.fail(f"C03 near pair: identifiers {how}: {kind}", case, root=i, a=_hex(b[0]), b=_hex(m[0]))
                 if (b[2][0] != m[2][0]) != (b[1] != m[1]):
                     rep.fail("C03 near pair (raw identifier): %s" % kind, case, root=i, a=_hex(b[1]), b=_hex(m[1]))
+
+    nmut = 40 if quick else 120
+    for idx in order:
+        name, roots = cases[idx]
+        within = time.time() - t0 <= budget                                          # the cheap pairwise part covers all graphs
+        done += within
+        rep.guard("C03", name, one, name, roots, within)
     if done < len(cases):
         rep.notes.append(f"near pairs generated for {done} of {len(cases)} graphs within the time budget (random order, seed {seed});"
                          " the pairwise comparison covers all graphs")
